@@ -590,6 +590,19 @@ PROPS = {
         "oracles": [oracle_c09, oracle_c15, pc_honest, pc_domain],
         "title": "Setup and trim",
     },
+    "C18": {
+        "props_file": "props/C18.v",
+        "flows": [(gen_pc.gen, "c01", 40, 400), (gen_pc.gen, "c19", 24, 240), (gen_c15.gen_setup, "c09", 8, 60), (gen_c14.gen, "c14", 8, 80),
+                  (gen_c08.gen, "c08", 16, 160)],
+        "oracles": [pc_honest],
+        "configs": [("RAYON_NUM_THREADS=1", True, 1), ("RAYON_NUM_THREADS=2", True, 2), ("RAYON_NUM_THREADS=3", True, 3),
+                    ("RAYON_NUM_THREADS=8", True, 8), ("RAYON_NUM_THREADS=16", True, 16), ("build without the parallel feature", False, None),
+                    ("RAYON_NUM_THREADS=16 (run 2)", True, 16), ("RAYON_NUM_THREADS=16 (run 3)", True, 16),
+                    ("RAYON_NUM_THREADS=16 (run 4)", True, 16), ("RAYON_NUM_THREADS=16 (run 5)", True, 16)],
+        "configs_quick": 6,
+        "comparators": {"size": cmp_size, "bytes": cmp_size},
+        "title": "Thread count and parallel feature",
+    },
     "C19": {
         "props_file": "props/C19.v",
         "flows": [(gen_pc.gen, "c19", 48, 480)],
